@@ -13,9 +13,9 @@ STD = "-std=gnu++17"
 # property -> (level, which configs, cases per worker quick/thorough, shards quick/thorough, max_len q/t, modes)
 PROPS = {
     "C01": dict(level="exploration", sel=lambda c: True, cases=(30000, 150000), max_len=(60, 120)),
-    "C02": dict(level="exploration", sel=lambda c: True, cases=(25000, 120000), max_len=(60, 120)),
-    "C03": dict(level="exploration", sel=lambda c: c.tracked_elems, cases=(25000, 120000), max_len=(60, 120)),
-    "C04": dict(level="exploration", sel=lambda c: c.tracked_alloc, cases=(20000, 100000), max_len=(60, 120), modes=("", "small")),
+    "C02": dict(level="exploration", sel=lambda c: True, cases=(25000, 120000), max_len=(60, 120), fault_phase=(4000, 40000)),
+    "C03": dict(level="exploration", sel=lambda c: c.tracked_elems, cases=(25000, 120000), max_len=(60, 120), fault_phase=(4000, 40000)),
+    "C04": dict(level="exploration", sel=lambda c: c.tracked_alloc, cases=(20000, 100000), max_len=(60, 120), modes=("", "small"), fault_phase=(4000, 40000)),
     "C05": dict(level="fault_enumeration", sel=lambda c: True, cases=(15000, 120000), max_len=(25, 25), fault=True),
     "C06": dict(level="fault_enumeration", sel=lambda c: True, cases=(12000, 100000), max_len=(25, 25), fault=True),
     "C07": dict(level="exploration", sel=lambda c: c.tracked_alloc, cases=(25000, 120000), max_len=(60, 120)),
@@ -135,28 +135,32 @@ def run_check(prop, tier, verdict, extra_args=None):
     ti = 0 if tier == "quick" else 1
     grid = [c for c in configs.grid(tier) if spec["sel"](c)]
     modes = spec.get("modes", ("",))
-    shards = max(1, (C.JOBS * (1 if tier == "quick" else 2)) // max(1, len(grid) * len(modes)))
+    shards = max(1, (C.JOBS * (1 if tier == "quick" else 2)) // max(1, len(grid) * (len(modes) + (1 if spec.get("fault_phase") else 0))))
     outdir = os.path.join(os.path.dirname(exe), "run-%s-%s-%d" % (prop, tier, os.getpid()))
     os.makedirs(outdir, exist_ok=True)
     os.makedirs(C.REPLAYS_TMP, exist_ok=True)
     jobs = []
+    phases = [(m, False) for m in modes] + ([("", True)] if spec.get("fault_phase") else [])
     for c in grid:
-        for mode in modes:
+        for mode, fph in phases:
             for sh in range(shards):
                 wseed = seed * 1000 + len(jobs) + 1
-                tag = "%s%s-%d" % (c.name, "-" + mode if mode else "", sh)
-                jobs.append(dict(cfg=c, mode=mode, seed=wseed, tag=tag,
+                tag = "%s%s%s-%d" % (c.name, "-" + mode if mode else "", "-fault" if fph else "", sh)
+                jobs.append(dict(cfg=c, mode=mode, seed=wseed, tag=tag, fault_phase=fph,
                                  stats=os.path.join(outdir, tag + ".json"),
                                  fp=os.path.join(outdir, tag + ".fp"),
                                  replay=os.path.join(outdir, tag + ".replay"),
                                  crash=os.path.join(outdir, tag + ".crash")))
 
     def one(j):
+        ncases = spec["fault_phase"][ti] if j["fault_phase"] else spec["cases"][ti]
         cmd = [exe, "--prop", prop, "--cfg", j["cfg"].name, "--seed", str(j["seed"]),
-               "--cases", str(spec["cases"][ti]), "--max-len", str(spec["max_len"][ti]),
+               "--cases", str(ncases), "--max-len", str(25 if j["fault_phase"] else spec["max_len"][ti]),
                "--out", j["stats"], "--fp-out", j["fp"], "--replay-out", j["replay"], "--crash-out", j["crash"]]
         if j["mode"]:
             cmd += ["--mode", j["mode"]]
+        if j["fault_phase"]:
+            cmd += ["--fault"]
         if extra_args:
             cmd += extra_args
         rc, out, err = C.run(cmd, timeout=7200)
@@ -283,7 +287,7 @@ def run_check(prop, tier, verdict, extra_args=None):
         workers_died=len(incomplete),
         regression_replays_run=regress_run,
     )
-    if spec.get("fault"):
+    if spec.get("fault") or spec.get("fault_phase"):
         cov.update(fault_points_enumerated=int(tot["fault_points"]), faults_injected=int(tot["faults_injected"]),
                    second_faults_in_handlers=int(tot["faults_second"]), strong_oracle_evaluations=int(tot["strong_checked"]),
                    fault_labels=fault_labels, final_operations=final_ops,
